@@ -42,6 +42,14 @@ CLAIMED = {
          'all six operators in both orders must equal the order of the denoted values (or, for built-in reps of different signedness with an unsigned common type, the built-in comparison of the aligned reps, as the statement requires) over scaled, elastic and wide families; number-vs-built-in comparisons are checked against the same comparison with the built-in wrapped in the CNL type',
          'two listed known findings (wide_integer pairs of different types when an operand is not representable in the other type; built-in operand whose alignment overflows against an elastic-rep number); 32 wide pairings that do not compile on the pinned tree are listed in uncompilable_allow.json',
          'DESIGN.md section 5 C03'),
+ 'C04': ('rapidcheck destination-fitted sources + exhaustive 8/16-bit source reps vs GMP truncation and MPFR correct rounding',
+         'for every (source type, destination type) site the destination rep must equal the exact value when representable, else trunc toward zero at the destination resolution; conversion to float/double/long double is compared bit-for-bit with MPFR round-to-nearest and the round trip is checked; from_rep/to_rep and wrap/unwrap inverses over nested wrappers',
+         'one listed known finding (left shift performed in the source type), which the suite itself pins with a static_assert; NaN/inf/out-of-range sources are outside the quantifier',
+         'DESIGN.md section 5 C04'),
+ 'C05': ('rapidcheck operands from the declared digit range with directed extremes and oversized divisors + exhaustive small-digit operand planes vs GMP integers',
+         'result value equals the exact integer result and lies within the range its own digits_v / numeric_limits declare, for + - * / % unary minus, comparisons and constant shifts over pairwise digit counts, signedness mixes and narrowest types including 128-bit and wide_integer storage',
+         'one listed known finding (>> of a negative value can floor to one below the symmetric lowest); the / % operand-narrowing defect was repaired (fix: commit d438fc9) and is kept as a regression',
+         'DESIGN.md section 5 C05'),
 }
 
 def main():
